@@ -402,7 +402,53 @@ pub fn response_size_limit() -> Value {
 			}
 		}
 	}
-	json!({"probe":"response_size_limit","disagrees":false,"inputs_tried":tried,"bound":"limits {60,100,150} x every payload size 0..limit+8 (result and error-with-data); batches of 1..4 entries with finished length limit-3..limit+3"})
+	// end to end (in-process tower service, HTTP): the response limit concerns RESPONSES only — entries that produce no reply
+	// (notifications) never count against it — and a call inside a batch is answered as it is answered alone, or the whole
+	// batch is answered by the single -32011 error
+	if let Some(v) = rt().block_on(async {
+		let call = |id: u64, n: usize| json!({"jsonrpc":"2.0","id":id,"method":"echo","params":["z".repeat(n)]});
+		let notif = json!({"jsonrpc":"2.0","method":"add","params":[1]});
+		for limit in [100u32, 160, 260] {
+			for notifs in [0usize, 1, 3, 8, 40] {
+				for pads in [vec![0usize], vec![0, 0], vec![10, 0], vec![0, (limit as usize).saturating_sub(60)], vec![(limit as usize).saturating_sub(60), 0], vec![30, 30, 30]] {
+					let cfg = || jsonrpsee_server::ServerConfig::builder().max_response_body_size(limit).build();
+					let mut entries: Vec<Value> = Vec::new();
+					for k in 0..notifs { if k % 2 == 0 { entries.push(notif.clone()) } }
+					for (i, p) in pads.iter().enumerate() { entries.push(call(i as u64 + 1, *p)); }
+					for k in 0..notifs { if k % 2 == 1 { entries.push(notif.clone()) } }
+					let (_s, body) = post_in_process(cfg(), &Value::Array(entries).to_string()).await;
+					let mut alone: Vec<Value> = Vec::new();
+					for (i, p) in pads.iter().enumerate() {
+						let (_s, b) = post_in_process(cfg(), &call(i as u64 + 1, *p).to_string()).await;
+						alone.push(serde_json::from_str(&b).unwrap_or(Value::Null));
+					}
+					let want_array = Value::Array(alone.clone());
+					let want_len = want_array.to_string().len();
+					let got: Value = serde_json::from_str(&body).unwrap_or(json!({"unparsable": body}));
+					let desc = format!("HTTP batch, response limit {limit}: {notifs} notifications around calls with payload sizes {pads:?}");
+					if want_len <= limit as usize {
+						if got != want_array {
+							return Some(json!({"probe":"response_size_limit","disagrees":true,"input":desc,"observed":body,"expected":format!("the array of the replies each call gets alone ({want_len} bytes, fits): {want_array}")}));
+						}
+					} else if !(got["error"]["code"] == json!(-32011) && got["id"].is_null()) {
+						return Some(json!({"probe":"response_size_limit","disagrees":true,"input":desc,"observed":body,"expected":"the single error -32011 with id null (the array of the stand-alone replies does not fit)"}));
+					}
+					if body.len() > limit as usize && got["error"]["code"] != json!(-32011) {
+						return Some(json!({"probe":"response_size_limit","disagrees":true,"input":desc,"observed":format!("{} bytes sent", body.len()),"expected":"nothing above the limit except the fixed error object"}));
+					}
+				}
+			}
+			// a batch of notifications only gets no reply, however many there are
+			let only: Vec<Value> = (0..50).map(|_| notif.clone()).collect();
+			let (_s, body) = post_in_process(jsonrpsee_server::ServerConfig::builder().max_response_body_size(limit).build(), &Value::Array(only).to_string()).await;
+			if !(body.trim().is_empty() || body.trim() == "null") {
+				return Some(json!({"probe":"response_size_limit","disagrees":true,"input":format!("HTTP batch of 50 notifications, response limit {limit}"),"observed":body,"expected":"no reply"}));
+			}
+		}
+		None
+	}) { return v; }
+	tried += 3 * 5 * 6 + 3;
+	json!({"probe":"response_size_limit","disagrees":false,"inputs_tried":tried,"bound":"limits {60,100,150} x every payload size 0..limit+8 (result and error-with-data); batches of 1..4 entries with finished length limit-3..limit+3; end to end over HTTP: limits {100,160,260} x {0,1,3,8,40} notifications x 6 call-size patterns (batch reply = stand-alone replies or the single -32011), 50 notifications alone"})
 }
 
 // ------------------------------------------------------------------------------------------
@@ -576,11 +622,37 @@ pub fn params_builder_roundtrip() -> Value {
 			return json!({"probe":"params_builder_roundtrip","disagrees":true,"input":"[u64; 3] and Vec<String> as params","observed":format!("{arr} / {vecp}"),"expected":"the same values in the same order"});
 		}
 	}
+	// values the JSON text must carry EXACTLY (no detour through a lossy intermediate): integers beyond 64 bits, f32, pre-serialised raw values
+	{
+		use jsonrpsee_core::traits::ToRpcParams;
+		fn txt<P: ToRpcParams>(p: P) -> String { match std::panic::catch_unwind(std::panic::AssertUnwindSafe(|| p.to_rpc_params())) { Ok(Ok(Some(r))) => r.get().to_string(), Ok(Ok(None)) => "<none>".into(), Ok(Err(e)) => format!("<error {e}>"), Err(_) => "<panic>".into() } }
+		let raw = serde_json::value::RawValue::from_string("123456789012345678901234567890.000000000000000000001".to_string()).unwrap();
+		let mut arr = ArrayParams::new();
+		arr.insert(u128::MAX).unwrap();
+		arr.insert(0.1f32).unwrap();
+		arr.insert(&raw).unwrap();
+		let via_builder = arr.to_rpc_params().unwrap().unwrap().get().to_string();
+		let exact: Vec<(&str, String, String)> = vec![
+			("(u128::MAX,) as params", txt((u128::MAX,)), "[340282366920938463463374607431768211455]".into()),
+			("(i128::MIN,) as params", txt((i128::MIN,)), "[-170141183460469231731687303715884105728]".into()),
+			("(0.1f32,) as params", txt((0.1f32,)), "[0.1]".into()),
+			("vec![0.1f32, 16777217.0f32] as params", txt(vec![0.1f32, 16777217.0f32]), serde_json::to_string(&vec![0.1f32, 16777217.0f32]).unwrap()),
+			("(&RawValue,) holding a 51-digit decimal as params", txt((&raw,)), format!("[{}]", raw.get())),
+			("[u128::MAX; 1] as params", txt([u128::MAX; 1]), "[340282366920938463463374607431768211455]".into()),
+			("tuple (u128::MAX, 0.1f32, &RawValue) against the same values through ArrayParams", txt((u128::MAX, 0.1f32, &raw)), via_builder.clone()),
+		];
+		for (what, got, want) in exact {
+			tried += 1;
+			if got != want {
+				return json!({"probe":"params_builder_roundtrip","disagrees":true,"input":what,"observed":got,"expected":want});
+			}
+		}
+	}
 	// empty builders mean "no params"
 	if ArrayParams::new().to_rpc_params().ok().flatten().is_some() || ObjectParams::new().to_rpc_params().ok().flatten().is_some() {
 		return json!({"probe":"params_builder_roundtrip","disagrees":true,"input":"empty builder","observed":"Some(..)","expected":"None"});
 	}
-	json!({"probe":"params_builder_roundtrip","disagrees":false,"inputs_tried":tried,"bound":"12 x 12 awkward texts as values and keys; tuples of arity 1..16 with pairwise distinct values; rpc_params!, array and Vec params"})
+	json!({"probe":"params_builder_roundtrip","disagrees":false,"inputs_tried":tried,"bound":"12 x 12 awkward texts as values and keys; tuples of arity 1..16 with pairwise distinct values; rpc_params!, array and Vec params; exact texts for u128 / i128 / f32 / raw values"})
 }
 
 // ------------------------------------------------------------------------------------------
